@@ -12,7 +12,9 @@ from __future__ import annotations
 
 import ast
 import operator
+import time as _time
 
+from . import alg as _alg
 from .alg import UnknownTruth, is_unknown, UNKNOWN, Poly
 from .src import AnalysisError, FuncInfo, ClassInfo, ModuleInfo
 
@@ -176,6 +178,10 @@ class Interp:
         self.trace = trace
         self.stmt_hook = stmt_hook
         self.after_call = None
+        self.time_budget = 240.0               # wall-clock budget of one run() of this interpreter
+        self.deadline = _time.time() + self.time_budget
+        _alg.set_deadline(self.deadline)
+        self.decision_log = []          # (cond, node, outcome) of every decided UNKNOWN condition, in order
         self.default_chooser = None     # fallback for conditions the rule's chooser does not decide (see scenario.py)
         self.call_stack = []
         self._modglobals = {}
@@ -212,6 +218,7 @@ class Interp:
             r = self.default_chooser(self, node, cond)
         if r is None:
             raise NeedChoice(node, cond)
+        self.decision_log.append((cond, node, bool(r)))
         return bool(r)
 
     # ------------------------------------------------------------------ name resolution
@@ -384,6 +391,8 @@ class Interp:
         self.steps += 1
         if self.steps > self.max_steps:
             raise Unsupported("step budget exceeded")
+        if self.deadline is not None and (self.steps & 63) == 0 and _time.time() > self.deadline:
+            raise Unsupported("time budget of one interpretation exceeded (expression swell on an unforeseen path)")
         if self.stmt_hook is not None:
             self.stmt_hook(self, s, env)
         m = getattr(self, "x_" + type(s).__name__, None)
@@ -886,6 +895,8 @@ class Interp:
 
     # ------------------------------------------------------------------ entry points
     def run(self, fi: FuncInfo, args=(), kwargs=None, bound_self=None):
+        self.deadline = _time.time() + self.time_budget
+        _alg.set_deadline(self.deadline)
         return self.call_repo(FuncRef(fi, bound_self=bound_self), list(args), dict(kwargs or {}))
 
 
